@@ -316,15 +316,16 @@ theorem rx_api_irq (cap fuel : Nat) (hfuel : 64 ≤ fuel) (hdr P : List UInt8) (
 theorem C03_step_on_chip (hdr P : List UInt8) (c : SysCfg) (hc : c.cached = false) (hfuel : 64 ≤ c.fuel) (s : Sys) (h : Handle) (g : RxG)
     (hh : s.handle = some h) (hv : RxInv hdr P h g)
     (hmod : h.activeModem = Gen.SX127x_MODULATION_FSK ∨ h.activeModem = Gen.SX127x_MODULATION_OOK)
-    (hchip : RxChip s.world.chip g) :
+    (hchip : RxChip s.world.chip g) (hclean : g.faulted = false) :
     match s.step c (.api .irq [] []) with
-    | (s', .ret _ _ _) => ∃ h' g', s'.handle = some h' ∧ RxPost hdr P g g' h' ∧ (g'.ended = false → RxChip s'.world.chip g')
+    | (s', .ret _ _ _) => ∃ h' g', s'.handle = some h' ∧ RxPost hdr P g g' h' ∧
+        (g'.ended = false → RxChip s'.world.chip g' ∧ g'.faulted = false)
     | (_, .ub _) => True
     | (_, _) => False := by
   unfold Sys.step
   dsimp only
   rw [if_neg (by simp [hh])]
-  have hw0 : rxAbs (opWorldRx s.world s.world.cache) g := Or.inr (Or.inr ⟨hchip, rfl, rfl⟩)
+  have hw0 : rxAbs (opWorldRx s.world s.world.cache) g := Or.inr (Or.inr ⟨hchip, rfl, rfl, hclean⟩)
   simp only [hh, Option.getD_some]
   unfold exec
   generalize hout : execG c.toCfg.cached c.toCfg.onCb (Api.prog c.cap c.fuel Api.irq h) _ = out
@@ -341,6 +342,7 @@ theorem C03_step_on_chip (hdr P : List UInt8) (c : SysCfg) (hc : c.cached = fals
     obtain ⟨g', hab, hpost⟩ := hex
     refine ⟨h', g', rfl, hpost, fun hne => ?_⟩
     have hw := rxAbs_live ⟨hpost.1, hne⟩ hab
+    refine ⟨?_, hw.clean⟩
     show RxChip (w.sched.foldl _ w.chip) g'
     rw [hw.nosched]
     exact hw.chip
@@ -352,14 +354,14 @@ theorem C03_step_on_chip_cached (hdr P : List UInt8) (c : SysCfg) (hc : c.cached
     (hfuel : 64 ≤ c.fuel) (s : Sys) (i : Inv s.world) (h : Handle) (g : RxG)
     (hh : s.handle = some h) (hv : RxInv hdr P h g)
     (hmod : h.activeModem = Gen.SX127x_MODULATION_FSK ∨ h.activeModem = Gen.SX127x_MODULATION_OOK)
-    (hchip : RxChip s.world.chip g) :
+    (hchip : RxChip s.world.chip g) (hclean : g.faulted = false) :
     match s.step c (.api .irq [] []) with
     | (s', .ret _ _ _) => ∃ h' g', s'.handle = some h' ∧ RxPost hdr P g g' h' ∧
-        (g'.ended = false → RxChip s'.world.chip g') ∧ Inv s'.world
+        (g'.ended = false → RxChip s'.world.chip g' ∧ g'.faulted = false) ∧ Inv s'.world
     | (_, .ub _) => True
     | (_, _) => False := by
   have hsim := step_sim c hc hval s s ⟨rfl, rfl, i⟩ (.api .irq [] []) ⟨rfl, rfl⟩ trivial (fun e he => by cases he)
-  have hun := C03_step_on_chip hdr P c.uncached rfl hfuel s h g hh hv hmod hchip
+  have hun := C03_step_on_chip hdr P c.uncached rfl hfuel s h g hh hv hmod hchip hclean
   generalize hsc : s.step c (.api .irq [] []) = rc at hsim
   generalize hsu : s.step c.uncached (.api .irq [] []) = ru at hsim hun
   obtain ⟨sc', oc⟩ := rc
